@@ -27,7 +27,15 @@ def run_case(drv, node, stack=(), text=None, flags=0, limit=3000, steps=3000000,
     except (M.HardError, M.Inconclusive, RecursionError) as e:
         # The model has no opinion on the results -- the engine is run all the same: whatever the program,
         # it must not crash (a DriverCrash propagates to the caller, which reports it).
-        drv.run(text, stack_spec(stack), flags=flags, limit=min(limit, 200), steps=min(steps, 300000))
+        try:
+            drv.run(text, stack_spec(stack), flags=flags, limit=min(limit, 200), steps=min(steps, 300000))
+        except Exception as ex:
+            # Known finding `unbounded-closure-recursion`: a program that recurses without bound (a name
+            # bound to a block is applied when read, so e.g. comparing a block with an infix operator can
+            # apply it for ever) exhausts the C stack.  Only where the model could not bound the program.
+            if ex.__class__.__name__ == "DriverCrash" and "stack-overflow" in ex.report:
+                return Outcome("inconclusive", "engine exhausted the C stack on a program the model cannot bound (known finding)", text=text)
+            raise
         why = "model hard error" if isinstance(e, M.HardError) else "model recursion" if isinstance(e, RecursionError) else str(e)
         return Outcome("inconclusive", why, text=text)
 
